@@ -32,7 +32,7 @@ def pydanticV1 : List Rule := [
   ⟨.assignField, (.and (.not (.atom .annotated)) (.atom .field)), 20⟩,
   ⟨.annotated, (.and (.not (.and (.not (.atom .annotated)) (.atom .field))) (.atom .annotated)), 23⟩,
   ⟨.typeHint, (.and (.not (.and (.not (.atom .annotated)) (.atom .field))) (.not (.atom .annotated))), 25⟩,
-  ⟨.assignDefault, (.and (.not (.and (.not (.atom .annotated)) (.atom .field))) (.not (.or (.atom .required) (.atom (.other "field.strips_default"))))), 28⟩
+  ⟨.assignDefault, (.and (.not (.and (.not (.atom .annotated)) (.atom .field))) (.not (.or (.atom .required) (.and (.atom .reprDefaultIsNone) (.atom .stripDefaultNone))))), 28⟩
 ]
 
 /-- pydantic/BaseModel.jinja2: condition(s) under which the member loop is reached (exactly one loop expected) -/
@@ -44,7 +44,7 @@ def pydanticV2 : List Rule := [
   ⟨.assignField, (.and (.not (.atom .annotated)) (.atom .field)), 28⟩,
   ⟨.annotated, (.and (.not (.and (.not (.atom .annotated)) (.atom .field))) (.atom .annotated)), 31⟩,
   ⟨.typeHint, (.and (.not (.and (.not (.atom .annotated)) (.atom .field))) (.not (.atom .annotated))), 33⟩,
-  ⟨.assignDefault, (.and (.not (.and (.not (.atom .annotated)) (.atom .field))) (.or (.not (.or (.atom .required) (.atom (.other "field.strips_default")))) (.atom .dataTypeIsOptional))), 36⟩
+  ⟨.assignDefault, (.and (.not (.and (.not (.atom .annotated)) (.atom .field))) (.or (.not (.or (.atom .required) (.and (.atom .reprDefaultIsNone) (.atom .stripDefaultNone)))) (.atom .dataTypeIsOptional))), 36⟩
 ]
 
 /-- pydantic_v2/BaseModel.jinja2: condition(s) under which the member loop is reached (exactly one loop expected) -/
@@ -55,7 +55,7 @@ def dataclass : List Rule := [
   ⟨.typeHint, (.atom .field), 20⟩,
   ⟨.assignField, (.atom .field), 20⟩,
   ⟨.typeHint, (.not (.atom .field)), 22⟩,
-  ⟨.assignDefault, (.and (.not (.atom .field)) (.not (.or (.atom .required) (.atom (.other "field.strips_default"))))), 24⟩
+  ⟨.assignDefault, (.and (.not (.atom .field)) (.not (.or (.atom .required) (.and (.atom .reprDefaultIsNone) (.atom .stripDefaultNone))))), 24⟩
 ]
 
 /-- dataclass.jinja2: condition(s) under which the member loop is reached (exactly one loop expected) -/
